@@ -685,9 +685,9 @@ func runC09_6(c *core.Ctx) {
 				return true
 			}
 			if hi, ok := isHead(as.Rhs[0]); ok && hi != nil {
-				if _, isCopyArg := remDef[hi]; isCopyArg && nameOf(f.Obj) == "Peek" {
+				if _, isLocal := hi.(*types.Var); isLocal && !hi.(*types.Var).IsField() && nameOf(f.Obj) == "Peek" {
 					k++
-					c.Check(firstLen[remDef[hi]] == a.r && (total == nil || remTotal[hi] == total), f.Name, "peek split #"+itoa(k), as.Pos(), "tail length = requested - (size - r)", "the wrapped part of a Peek has a length other than the request minus the size-r bytes of the head")
+					c.Check(remDef[hi] != nil && firstLen[remDef[hi]] == a.r && (total == nil || remTotal[hi] == total), f.Name, "peek split #"+itoa(k), as.Pos(), "tail length = requested - (size - r)", "the wrapped part of a Peek has a length other than the request minus the size-r bytes of the head")
 				}
 			}
 			return true
